@@ -1096,18 +1096,21 @@ Section Out.
   (* hot = Some h: a directory has just been moved out to h and no record has been processed since.  The next
      applicable operation must be one of covered_op, act in a directory of the tree (so that it produces a record) and
      must not notify a directory inside the departed one. *)
+  Definition step_ok (w : world) (hot : option bytes) (o : op) : Prop :=
+    match hot with
+    | None => covered_x w o
+    | Some h => covered_op C w o /\ watched_parent w o /\ (forall d, In d (notified o) -> blw h d = false)
+    end.
+  Definition hot_next (w : world) (hot : option bytes) (o : op) : option bytes :=
+    match hot with None => is_dir_out w o | Some _ => None end.
+
   Fixpoint ops_x (w : world) (hot : option bytes) (ops : list op) : Prop :=
     match ops with
     | [] => True
     | o :: ops' =>
       match apply_op w o with
       | None => ops_x w hot ops'
-      | Some w' =>
-        match hot with
-        | None => covered_x w o /\ ops_x w' (is_dir_out w o) ops'
-        | Some h => covered_op C w o /\ watched_parent w o /\ (forall d, In d (notified o) -> blw h d = false) /\
-                    ops_x w' None ops'
-        end
+      | Some w' => step_ok w hot o /\ ops_x w' (hot_next w hot o) ops'
       end
     end.
 
@@ -1135,29 +1138,39 @@ Section Out.
       assert (E : scopeb C p = false) by now apply scopeb_false. rewrite E. now rewrite andb_false_r.
   Qed.
 
+  (* one operation and one read of the whole queue, from a synchronised-up-to-junk or a pending state *)
+  Theorem gs_step w k r hot o w' : c_mask C = WATCHDOG_ALL -> GS w k r hot -> step_ok w hot o -> apply_op w o = Some w' ->
+    let k1 := kernel_op k (w_fs w) o in
+    exists r' k' evs, read_batch C (w_fs w') (r, drainq k1, []) (k_queue k1) = Done (r', k', evs) /\
+      GS w' k' r' (hot_next w hot o) /\ Forall (rsafe C) evs.
+  Proof.
+    intros Hm G Hs Ea k1.
+    assert (M : mask_ok C) by (unfold mask_ok; rewrite Hm; repeat split; vm_compute; discriminate).
+    destruct hot as [h|]; cbn [GS step_ok hot_next] in *.
+    - destruct G as (c & p & PO). destruct Hs as (Ho & Hwp & Hnh).
+      assert (Qne := record_produced w k r o Hm (rs_wf _ _ _ _ (po_clean _ _ _ _ _ _ PO)) (po_cover _ _ _ _ _ _ PO) (po_mask _ _ _ _ _ _ PO) Hwp).
+      destruct (pout_step w k r h c p o w' M PO Ho Hnh Ea Qne) as (r' & k' & evs & Hrd & J' & Hsafe & _).
+      exists r', k', evs. split; [exact Hrd|]. split; [exact J' | exact Hsafe].
+    - destruct Hs as [o Ho|p q ep Np Nq Hrec El De Sp Hpr Sq].
+      + destruct (cover_step_junk w k r o w' M G Ho Ea) as (r' & k' & evs & Hrd & S' & Hsafe).
+        rewrite (covered_op_not_out w o Ho). exists r', k', evs. split; [exact Hrd|]. split; [now apply RSync_JSync | exact Hsafe].
+      + destruct M as (M1 & M2 & M3).
+        destruct (out_pout_junk w k r p q w' ep G Np Nq Hrec M2 M3 Ea El De Sp Hpr Sq) as (r' & k' & evs & Hrd & PO & Hsafe).
+        assert (Eo : is_dir_out w (Rename p q) = Some q).
+        { cbn [is_dir_out]. unfold fisdir. rewrite El, De, Hrec. rewrite (proj2 (scopeb_spec C p) Sp).
+          assert (E1 : beqb p root = false) by now apply beqb_neq. assert (E2 : scopeb C q = false) by now apply scopeb_false.
+          now rewrite E1, E2. }
+        rewrite Eo. exists r', k', evs. split; [exact Hrd|]. split; [now exists (k_next_cookie k), p | exact Hsafe].
+  Qed.
+
   Theorem cover_sequential_x : c_mask C = WATCHDOG_ALL -> forall ops w k r hot, GS w k r hot -> ops_x w hot ops ->
     exists w' k' r' hot', rrun C w k r ops = Some (w', k', r') /\ GS w' k' r' hot'.
   Proof.
-    intros Hm.
-    assert (M : mask_ok C) by (unfold mask_ok; rewrite Hm; repeat split; vm_compute; discriminate).
-    induction ops as [|o ops IH]; intros w k r hot G Hc; cbn [rrun ops_x] in *.
+    intros Hm. induction ops as [|o ops IH]; intros w k r hot G Hc; cbn [rrun ops_x] in *.
     - exists w, k, r, hot. now split.
     - destruct (apply_op w o) as [w'|] eqn:Ea; [|now apply (IH w k r hot)].
-      destruct hot as [h|]; cbn [GS] in G.
-      + destruct G as (c & p & PO). destruct Hc as (Ho & Hwp & Hnh & Hc).
-        assert (Qne := record_produced w k r o Hm (rs_wf _ _ _ _ (po_clean _ _ _ _ _ _ PO)) (po_cover _ _ _ _ _ _ PO) (po_mask _ _ _ _ _ _ PO) Hwp).
-        destruct (pout_step w k r h c p o w' M PO Ho Hnh Ea Qne) as (r' & k' & evs & -> & J' & _).
-        now apply (IH w' k' r' None).
-      + destruct Hc as [Ho Hc]. destruct Ho as [o Ho|p q ep Np Nq Hrec El De Sp Hpr Sq].
-        * destruct (cover_step_junk w k r o w' M G Ho Ea) as (r' & k' & evs & -> & S' & _).
-          rewrite (covered_op_not_out w o Ho) in Hc. apply (IH w' k' r' None); [now apply RSync_JSync | exact Hc].
-        * destruct M as (M1 & M2 & M3).
-          destruct (out_pout_junk w k r p q w' ep G Np Nq Hrec M2 M3 Ea El De Sp Hpr Sq) as (r' & k' & evs & -> & PO & _).
-          assert (Eo : is_dir_out w (Rename p q) = Some q).
-          { cbn [is_dir_out]. unfold fisdir. rewrite El, De, Hrec. rewrite (proj2 (scopeb_spec C p) Sp).
-            assert (E1 : beqb p root = false) by now apply beqb_neq. assert (E2 : scopeb C q = false) by now apply scopeb_false.
-            now rewrite E1, E2. }
-          rewrite Eo in Hc. apply (IH w' k' r' (Some q)); [now exists (k_next_cookie k), p | exact Hc].
+      destruct Hc as [Hs Hc]. destruct (gs_step w k r hot o w' Hm G Hs Ea) as (r' & k' & evs & -> & G' & _).
+      now apply (IH w' k' r' _ G').
   Qed.
 
   Lemma GS_cover w k r hot : GS w k r hot -> wf_fs w /\ Cover C (w_fs w) k r.
